@@ -373,6 +373,25 @@ def main():
             for label, t in metadata_placements(tree):
                 items.append((b, "metadata", label, q, t))
             items.append((b, "qastle", "round-trip", q, None))
+        # a lambda parameter spelled like a namespace the query's own metadata declares (define_enum): parameters hide namespaces
+        ns_root = "xAOD" if b == "atlas" else "reco"
+        md_enum = {"metadata_type": "define_enum", "namespace": f"{ns_root}.{'Jet' if b == 'atlas' else 'Muon'}", "name": "Kind", "values": ["One", "Two"]}
+        for body in (f"lambda e: e.{v['prim']}('A').Select(lambda j: j.pt())",
+                     f"lambda e: e.{v['prim']}('A').Where(lambda j: j.pt() > 1.5).Select(lambda j: j.eta() + j.pt())",
+                     f"lambda e: e.{v['prim']}('A').Select(lambda j: e.{v['sec']}('B').Where(lambda t: t.pt() > j.pt()).Count())"):
+            q = f"Select(MetaData(EventDataset('ds'), {md_enum!r}), {body})"
+            tree = ast.parse(q, mode="eval").body
+            for i, lam in enumerate(lambdas_of(tree)):
+                for jx in range(len(lam.args.args)):
+                    for nm in (ns_root, "Kind"):
+                        t2 = rename_param(tree, i, jx, nm)
+                        if t2 is not None:
+                            items.append((b, "rename", f"namespace-name:{lam.args.args[jx].arg}->{nm}", q, t2))
+        # chained comparisons: qastle text carries them as nested two-operand comparisons (known finding on the AST route)
+        for body in (f"lambda e: e.{v['prim']}('A').Where(lambda j: 1.5 <= j.pt() < 3.5).Count()",
+                     f"lambda e: e.{v['prim']}('A').Select(lambda j: 0.5 < j.eta() <= j.pt())",
+                     f"lambda e: e.{v['prim']}('A').Where(lambda j: 1 < j.nTrk() < 3).Select(lambda j: j.pt())"):
+            items.append((b, "qastle", "round-trip", f"Select(EventDataset('ds'), {body})", None))
         # wire format: list-valued metadata written as tuples in the python AST (qastle text has only lists)
         for md in MD_LISTY[b]:
             if md["metadata_type"] == "add_cpp_function":
@@ -411,8 +430,8 @@ def main():
                 nontrivial += 1
             if r["verdict"] == "benign":
                 benign.append((tag, r["text"]))
-        elif r["verdict"] == "differ" and any(re.fullmatch(f["label_regex"], it[2]) and f["text_regex"] in r["text"] for f in kfs):
-            f = next(f for f in kfs if re.fullmatch(f["label_regex"], it[2]) and f["text_regex"] in r["text"])
+        elif r["verdict"] == "differ" and any(re.fullmatch(f["label_regex"], it[2]) and f["text_regex"] in r["text"] and (not f.get("src_regex") or re.search(f["src_regex"], it[3])) for f in kfs):
+            f = next(f for f in kfs if re.fullmatch(f["label_regex"], it[2]) and f["text_regex"] in r["text"] and (not f.get("src_regex") or re.search(f["src_regex"], it[3])))
             rep.known(f["id"], f["what"][:200] + f" | observed: {tag[:160]}")
         elif r["verdict"] == "differ":
             d = REPLAYS / "C08" / re.sub(r"\W+", "_", f"{it[0]}_{it[1]}_{it[2]}_{abs(hash(it[3])) % 10**8}")[:120]
